@@ -8,6 +8,7 @@ from .. import fields, paths
 from ..core import FUNC, call_attr, calls_in, const, dotted, is_const, kwarg, norm, slice_parts, text, walk_local
 
 EXPLANATION = [
+    "C10.entry-length-octet: the Read By Type / Read By Group Type handlers cut each entry's value to min(<MTU bound>, 253 / 251): the entry length fits its one-octet field at every ATT_MTU.",
     'C10.bearer-attributes: every attribute read from a `Bearer` parameter (Connection | LeCreditBasedChannel) in bumble.att / bumble.gatt_server exists on every member class possible at the site (isinstance / is_enhanced_bearer narrowing followed): no AttributeError on the enhanced bearer.',
     'C10.blob-part-size: in on_att_read_blob_request the part size is min(bearer.att_mtu - 1, remaining) (or clamped from above by that bound): a Read Blob Response never exceeds ATT_MTU.',
     "C10.att-mtu-min: every assignment of LeCreditBasedChannel.att_mtu (other than the explicit update hook) is min(own mtu, peer mtu): both ends of an enhanced bearer use the same ATT_MTU and nothing longer than the peer's MTU is sent.",
@@ -678,7 +679,25 @@ def bearer_attributes(ctx, rule='C10.bearer-attributes'):
                     {'is_enhanced_bearer': 'LeCreditBasedChannel', 'EnhancedBearer': 'LeCreditBasedChannel'}, floor=25)
 
 
+def entry_length_octet(ctx):
+    """Read By Type / Read By Group Type responses carry the entry length in one octet: the value of an entry is cut to
+    253 / 251 octets at most whatever the ATT_MTU is, or a long value at a large MTU makes the response unserialisable
+    (ValueError inside the task-wrapped handler: no reply at all)."""
+    R, p = ctx.r, ctx.p
+    rule = 'C10.entry-length-octet'
+    for name, hdr in (('on_att_read_by_type_request', 2), ('on_att_read_by_group_type_request', 4)):
+        fn = p.find(f'{SRV}.{name}')
+        if fn is None:
+            R.bad(rule, f'{SRV}.{name}', 'anchor missing')
+            continue
+        sts = [s_ for s_ in walk_local(fn) if isinstance(s_, ast.Assign) and dotted(s_.targets[0]) == 'max_attribute_size']
+        cut = [s_ for s_ in walk_local(fn) if isinstance(s_, ast.Assign) and isinstance(s_.value, ast.Subscript) and 'max_attribute_size' in norm(s_.value)]
+        ok = len(sts) == 1 and bool(cut) and isinstance(sts[0].value, ast.Call) and dotted(sts[0].value.func) == 'min' and any(is_const(a) and isinstance(const(a), int) and const(a) <= 255 - hdr for a in sts[0].value.args)
+        R.check(ok, rule, f'{SRV}.{name}', f'value cut to min(..., <= {255 - hdr})', f'the value of an entry is cut to `{norm(sts[0].value) if sts else "?"}` only: with ATT_MTU above {255 + 2} an attribute value longer than {255 - hdr} octets gives an entry length that does not fit its one-octet field - building the response raises and the request is never answered', p.loc(sts[0]) if sts else p.loc(fn))
+
+
 RULES = [
+    ('C10.entry-length-octet', entry_length_octet),
     ('C10.bearer-attributes', bearer_attributes),
     ('C10.blob-part-size', blob_part_size),
     ('C10.att-mtu-min', att_mtu_min),
